@@ -173,4 +173,40 @@ theorem vsum_map_affine (l : List Nat) (c : Nat → V3) (o u v w : V3) :
     simp only [List.map_cons, vsum, ih, List.length_cons]
     apply V3.ext' <;> simp <;> ring
 
+/-! ### lattice-like grids -/
+
+/-- `coord` assigns lattice coordinates to the junctions such that the neighbours of every free inner
+    junction are centrally symmetric about it (their coordinates sum to `count · coord j`).
+    Decidable for a concrete grid; true for the structured maps (examples below; the harness has
+    the model decide it for every regular case it generates). -/
+def LatticeLike (g : Grid) (fixed : List Nat) (coord : Nat → V3) : Prop :=
+  ∀ j ∈ inner g, j ∉ fixed →
+    junctionNbrs g j ≠ [] ∧
+      vsum ((junctionNbrs g j).map coord) = V3.smul ((junctionNbrs g j).length : Rat) (coord j)
+
+/-- lattice coordinates of the points of the structured map with `nx` cells per row -/
+def quadCoord (nx : Nat) (q : Nat) : V3 := ⟨(q % (nx + 1) : Nat), (q / (nx + 1) : Nat), 0⟩
+
+/-- `GridBase` addressing of the structured `nx × ny` quad map -/
+def structQuads (nx ny : Nat) : Grid :=
+  ⟨quadKind,
+   (List.range ny).flatMap (fun j => (List.range nx).map (fun i =>
+     [j * (nx + 1) + i, j * (nx + 1) + i + 1, (j + 1) * (nx + 1) + i + 1, (j + 1) * (nx + 1) + i])),
+   (nx + 1) * (ny + 1)⟩
+
+def latticeLikeB (g : Grid) (fixed : List Nat) (coord : Nat → V3) : Bool :=
+  (inner g).all (fun j => fixed.contains j ||
+    (!(junctionNbrs g j).isEmpty &&
+      vsum ((junctionNbrs g j).map coord) == V3.smul ((junctionNbrs g j).length : Rat) (coord j)))
+
+theorem latticeLike_of_B (g : Grid) (fixed : List Nat) (coord : Nat → V3) (h : latticeLikeB g fixed coord = true) :
+    LatticeLike g fixed coord := by
+  intro j hj hf
+  unfold latticeLikeB at h
+  rw [List.all_eq_true] at h
+  have := h j hj
+  simp only [Bool.or_eq_true, List.contains_iff_mem, hf, false_or, Bool.and_eq_true, Bool.not_eq_true',
+    List.isEmpty_eq_false_iff, beq_iff_eq] at this
+  exact this
+
 end CBV.C15
